@@ -179,6 +179,21 @@ pub fn run_history_t(rng: &mut Rng, opts: &HistoryOpts, rep: &mut Report, prop: 
         todo.extend(reply_matrix(&w.users, &contracts, 20_000));
         todo.reverse();
     }
+    // on the crate's own codecs: the spelling the other checksum variant gives the same bytes, and the upper-case
+    // spelling, of a user and of a contract — strings that are addresses on another chain, never on this one
+    if api == ApiKind::Bech32 || api == ApiKind::Bech32m {
+        let other = if api == ApiKind::Bech32 { ApiKind::Bech32m } else { ApiKind::Bech32 };
+        let respell = |a: &str| api.canonicalize(a).and_then(|c| other.humanize(&c));
+        let mut directed = vec![];
+        if let Some(u) = respell(&w.users[1]) {
+            directed.push(Top::Exec { sender: w.users[0].clone(), msg: Msg::BankSend { to: u, coins: vec![cosmwasm_std::coin(1, "ua")] }, via: ExecVia::Execute });
+        }
+        directed.push(Top::Exec { sender: w.users[0].clone(), msg: Msg::BankSend { to: w.users[1].to_uppercase(), coins: vec![cosmwasm_std::coin(1, "ua")] }, via: ExecVia::Execute });
+        if let Some(c) = w.model.st.contracts.keys().next().and_then(|c| respell(c)) {
+            directed.push(Top::Exec { sender: w.users[0].clone(), msg: Msg::Exec { addr: c, script: Box::new(Script { tag: 99, ..Default::default() }), funds: vec![] }, via: ExecVia::Execute });
+        }
+        todo.extend(directed);
+    }
     let mut tag_base = 100u32;
     let mut produced = 0usize;
     loop {
